@@ -472,9 +472,10 @@ def write_evidence(c, ev, wall, fixed, known_lines):
         "simulated_time": "not applicable: formulae has no clock, timer or deadline; logical steps are reported "
                           f"instead ({ops} ops)",
         "faults_fired": faults,
-        "fault_kinds_note": "inject.* = exception raised from a sys.monitoring LINE callback between two statements "
-                            "of formulae code (base = BaseException-derived like KeyboardInterrupt, exc = Exception-"
-                            "derived like MemoryError); natural.* = operation that fails on its own half-way "
+        "fault_kinds_note": "inject.<op>.<line|call>.<base|exc> = exception raised from a sys.monitoring callback "
+                            "between two statements of formulae code (line) or right before a call made by formulae code, "
+                            "i.e. inside a statement (call); base = BaseException-derived like KeyboardInterrupt, exc = "
+                            "Exception-derived like MemoryError; natural.* = operation that fails on its own half-way "
                             "(unseen level under 'error', missing column, wrong dtype, user callable raising); "
                             "config.flip/invalid = global config changed / mis-set between operations; caller.* = "
                             "caller refills the same DataFrame object / writes into a returned matrix",
@@ -510,8 +511,13 @@ def write_evidence(c, ev, wall, fixed, known_lines):
             "scenarios": ev["sweeps"]["scenarios"], "swept_evals": s.get("sweep.eval.ops", 0),
             "eval_crash_points": s.get("sweep.eval.points", 0), "swept_builds": s.get("sweep.build.ops", 0),
             "build_crash_points": s.get("sweep.build.points", 0),
-            "rule": "every line event of the swept evaluate_new_data inside formulae/ (stride 1); stride sample of the "
-                    "swept design_matrices; after each abort: S invariants on every live object + un-faulted canary",
+            "eval_points_by_mode": {"line": s.get("sweep.eval.points.line", 0), "call": s.get("sweep.eval.points.call", 0)},
+            "build_points_by_mode": {"line": s.get("sweep.build.points.line", 0),
+                                     "call": s.get("sweep.build.points.call", 0)},
+            "rule": "every line event (or every call event) of the swept evaluate_new_data inside formulae/ (stride 1; "
+                    "quick tier alternates the two exception flavours over the points, thorough injects both at every "
+                    "point); stride sample of the swept design_matrices; after each abort: S invariants on every live "
+                    "object + un-faulted canary compared with the pre-fault baseline, fresh-process reference at the end",
         }
     if ev.get("hash"):
         coverage["hash_seed_phase"] = ev["hash"]
